@@ -8,6 +8,7 @@ use std::collections::HashMap;
 use std::io;
 use std::io::ErrorKind;
 use std::net::IpAddr;
+use std::sync::atomic::{AtomicBool, Ordering};
 use std::sync::Arc;
 use tokio::sync::mpsc;
 
@@ -34,6 +35,8 @@ struct Stream {
     readable_event_tx: mpsc::Sender<()>,
     /// Sends messages to [`StreamSink.writable_event_rx`]
     writable_event_tx: mpsc::Sender<()>,
+    /// See [`StreamSource.reset_by_client`]
+    reset_by_client: Arc<AtomicBool>,
     read_shutdown: bool,
     write_shutdown: bool,
 }
@@ -49,6 +52,9 @@ struct StreamSource {
     socket: Arc<QuicSocket>,
     /// Receives messages from [`Stream.readable_event_tx`]
     readable_event_rx: mpsc::Receiver<()>,
+    /// Raised by [`Http3Codec`] when the client resets the stream. QUIC reports such a stream
+    /// as finished as well, but what has been read from it is not the whole upload.
+    reset_by_client: Arc<AtomicBool>,
     /// Sends messages to [`Http3Codec.stream_rx`]
     codec_tx: Arc<mpsc::UnboundedSender<StreamMessage>>,
     id: log_utils::IdChain<u64>,
@@ -174,6 +180,9 @@ impl Http3Codec {
                 Ok(None)
             }
             QuicSocketEvent::Close(stream_id) => {
+                if let Some(stream) = self.streams.get(&stream_id) {
+                    stream.reset_by_client.store(true, Ordering::Release);
+                }
                 let _ = self.on_stream_shutdown(stream_id, None);
                 Ok(None)
             }
@@ -187,6 +196,7 @@ impl Http3Codec {
     ) -> io::Result<Box<dyn http_codec::Stream>> {
         let (readable_tx, readable_rx) = mpsc::channel(1);
         let (writable_tx, writable_rx) = mpsc::channel(1);
+        let reset_by_client = Arc::new(AtomicBool::new(false));
         let reset_code = if request.method == http::Method::CONNECT {
             quiche::h3::WireErrorCode::ConnectError
         } else {
@@ -203,6 +213,7 @@ impl Http3Codec {
             Stream {
                 readable_event_tx: readable_tx,
                 writable_event_tx: writable_tx,
+                reset_by_client: reset_by_client.clone(),
                 read_shutdown: false,
                 write_shutdown: false,
             },
@@ -214,6 +225,7 @@ impl Http3Codec {
                 request,
                 socket: self.socket.clone(),
                 readable_event_rx: readable_rx,
+                reset_by_client,
                 codec_tx: self.codec_tx.clone(),
                 id: id.clone(),
             },
@@ -404,6 +416,13 @@ impl pipe::Source for StreamSource {
             match self.socket.read(self.stream_id)? {
                 Some(chunk) => return Ok(pipe::Data::Chunk(chunk)),
                 None => {
+                    // a stream the client has reset is reported as finished too
+                    if self.reset_by_client.load(Ordering::Acquire) {
+                        return Err(io::Error::new(
+                            ErrorKind::ConnectionReset,
+                            "Stream reset by client",
+                        ));
+                    }
                     if self.socket.stream_finished(self.stream_id) {
                         return Ok(pipe::Data::Eof);
                     } else {
